@@ -5,11 +5,14 @@
                              never imported in the zygote itself), then one job per line; every job is run in a forked
                              child (fresh forml import, fresh process-global caches), one answer line per job
 
-job:    {"root": dir, "home": FORML_HOME, "init": [db...]|null, "ops": [["read", feed, stmt-ast] | ["mutate", storage, db]]}
+job:    {"root": dir, "home": FORML_HOME, "init": [db...]|null, "state": [db...] (current contents), "formats": {storage: {Table: format}},
+         "ops": [["read", feed, stmt-ast] | ["mutate", storage, db]]}
 answer: JSON list with one entry per read: ["rows", [[...]...]] | ["error", class, message]
 
-Storages 0, 1: SQLite files `<root>/s<i>.db` behind `forml.provider.feed.alchemy.Feed`;
-storages 2, 3: CSV directories `<root>/s<i>/` behind `forml.provider.feed.monolite.Feed`.
+Storages 0, 1: SQLite files `<root>/s<i>.db` behind `forml.provider.feed.alchemy.Feed` - feeds 0, 1 and, with the same
+connection but another schema -> table mapping, feeds 4, 5 (`c06gen.FEEDS`);
+storages 2, 3: directories `<root>/s<i>/` behind `forml.provider.feed.monolite.Feed` (feeds 2, 3), every table kept in its own
+format (`c06gen.FORMATS`: CSV with / without header line, other separator, reader options given by the user; parquet; inline).
 The feeds are driven as `io.Feed.load` does: `feed.producer(feed.sources, feed.features, **readerkw)(statement)`.
 """
 import csv
@@ -38,28 +41,43 @@ def tup(x):
     return x
 
 
-def write_storage(root: str, i: int, db: dict) -> None:
-    if i < 2:
+def _csv_path(root: str, i: int, table: str, fmt: str) -> str:
+    return os.path.join(root, f's{i}', table + ('.parquet' if fmt == 'parquet' else '.csv'))
+
+
+def write_storage(root: str, i: int, db: dict, formats=None) -> None:
+    """SQL storages: one table per key of `db` (both mappings); file storages: one file per catalog table in the table's
+    format (`c06gen.FORMATS`: separator / header line as the user's reader options describe them, parquet; inline tables
+    have no file)"""
+    if g.STORAGE_KINDS[i] == 'alchemy':
         con = sqlite3.connect(os.path.join(root, f's{i}.db'))
-        for t in g.CATALOG:
-            name = g.PHYS[t[1]]
+        for name, (cols, rows) in db.items():
+            t = g.TABLE_OF[name]
             con.execute(f'DROP TABLE IF EXISTS "{name}"')
             con.execute(f'CREATE TABLE "{name}" (' + ', '.join(f'"{n}" {SQL_TYPES[k]}' for n, k in t[2]) + ')')
-            cols, rows = db[name]
             if rows:
                 con.executemany(f'INSERT INTO "{name}" VALUES (' + ', '.join('?' for _ in cols) + ')', [tuple(r) for r in rows])
         con.commit()
         con.close()
-    else:
-        os.makedirs(os.path.join(root, f's{i}'), exist_ok=True)
-        for t in g.CATALOG:
-            cols, rows = db[g.PHYS[t[1]]]
-            path = os.path.join(root, f's{i}', t[1] + '.csv')
+        return
+    os.makedirs(os.path.join(root, f's{i}'), exist_ok=True)
+    for t in g.CATALOG:
+        fmt = (formats or {}).get(t[1], 'csv')
+        group, kwargs, header = g.FORMATS[fmt]
+        cols, rows = db[g.PHYS[t[1]]]
+        path = _csv_path(root, i, t[1], fmt)
+        if group == 'csv':
             with open(path + '.tmp', 'w', newline='') as f:
-                w = csv.writer(f)
-                w.writerow(cols)
+                w = csv.writer(f, delimiter=(kwargs or {}).get('sep', ','))
+                if header:
+                    w.writerow(cols)
                 for r in rows:
                     w.writerow(['' if v is None else v for v in r])
+            os.replace(path + '.tmp', path)
+        elif group == 'parquet':
+            import pandas
+
+            pandas.DataFrame([list(r) for r in rows], columns=list(cols)).to_parquet(path + '.tmp', index=False)
             os.replace(path + '.tmp', path)
 
 
@@ -67,32 +85,53 @@ def run_job(job) -> list:
     root = job['root']
     if job.get('home'):
         os.environ['FORML_HOME'] = job['home']
+    formats = {int(k): v for k, v in (job.get('formats') or {}).items()}
+    #: current content of every storage (inline origins are configured with it)
+    state = {i: db for i, db in enumerate(job.get('state') or job.get('init') or [])}
     if job.get('init') is not None:
         for i, db in enumerate(job['init']):
-            write_storage(root, i, db)
+            write_storage(root, i, db, formats.get(i))
     from forml.provider.feed import alchemy, monolite
 
     builder = dslgen.Builder()
+    sugar = g.SugarBuilder()
     tables = {t: builder.build(t) for t in g.CATALOG}
     producers = {}
 
-    def producer(i: int):
-        if i not in producers:
-            if i < 2:
-                feed = alchemy.Feed(sources={tables[t]: g.PHYS[t[1]] for t in g.CATALOG},
-                                    connection='sqlite:///' + os.path.join(root, f's{i}.db'))
+    def producer(feed: int):
+        if feed not in producers:
+            i = g.STORAGE[feed]
+            if g.FEED_KINDS[feed] == 'alchemy':
+                names = {t: (g.ALT[g.PHYS[t[1]]] if g.MAPPING[feed] == 'b' else g.PHYS[t[1]]) for t in g.CATALOG}
+                obj = alchemy.Feed(sources={tables[t]: names[t] for t in g.CATALOG},
+                                   connection='sqlite:///' + os.path.join(root, f's{i}.db'))
             else:
-                feed = monolite.Feed(csv={tables[t]: os.path.join(root, f's{i}', t[1] + '.csv') for t in g.CATALOG})
-            producers[i] = feed.producer(feed.sources, feed.features, **feed._readerkw)  # pylint: disable=protected-access
-        return producers[i]
+                groups = {'csv': {}, 'parquet': {}, 'inline': {}}
+                for t in g.CATALOG:
+                    fmt = formats.get(i, {}).get(t[1], 'csv')
+                    group, kwargs, _ = g.FORMATS[fmt]
+                    if group == 'inline':
+                        groups['inline'][tables[t]] = [list(r) for r in state[i][g.PHYS[t[1]]][1]]
+                    elif kwargs is None:
+                        groups[group][tables[t]] = _csv_path(root, i, t[1], fmt)
+                    else:
+                        groups[group][tables[t]] = {'path': _csv_path(root, i, t[1], fmt), 'kwargs': dict(kwargs)}
+                obj = monolite.Feed(**{k: v for k, v in groups.items() if v})
+            producers[feed] = obj.producer(obj.sources, obj.features, **obj._readerkw)  # pylint: disable=protected-access
+        return producers[feed]
 
     out = []
     for op in job['ops']:
         if op[0] == 'mutate':
-            write_storage(root, op[1], op[2])
+            write_storage(root, op[1], op[2], formats.get(op[1]))
+            state[op[1]] = op[2]
+            if any(g.FORMATS[f][0] == 'inline' for f in formats.get(op[1], {}).values()):
+                # an inline origin is configured with its content: new content = a new feed object
+                for feed in [f for f in producers if g.STORAGE[f] == op[1]]:
+                    del producers[feed]
             continue
         try:
-            statement = builder.build(tup(op[2]))
+            statement = (sugar if len(op) > 3 and op[3] == 'sugar' else builder).build(tup(op[2]))
             frame = producer(op[1])(statement)
             rows = []
             for row in frame.to_rows():
